@@ -14,7 +14,7 @@ Open Scope string_scope.
 Inductive ocur := OcNone | OcBad | OcSome (e : edge).
 Record oinfo := { oi_prev : bool; oi_next : bool; oi_start : ocur; oi_end : ocur }.
 Inductive obs :=
-| ObCrash | ObError | ObMalformed
+| ObCrash | ObHang | ObError | ObMalformed
 | ObPage (edges : list edge) (cursors : list ocur) (info : option oinfo).
 
 Record step := {
@@ -92,6 +92,7 @@ Definition dec_obs (s : sexp) : option obs :=
   match untag s with
   | Some (t, l) =>
       if String.eqb t "crash" then Some ObCrash
+      else if String.eqb t "hang" then Some ObHang
       else if String.eqb t "error" then Some ObError
       else if String.eqb t "malformed" then Some ObMalformed
       else if String.eqb t "page" then
@@ -205,6 +206,7 @@ Definition oracle_step (E : list edge) (g : query -> list edge) (i : nat) (s : s
   match s_obs s with
   | ObMalformed => fail "malformed-response" []
   | ObCrash => fail (crash_key (s_pres s)) []
+  | ObHang => fail "hang" []
   | ObError => if args_ok a then fail "error-on-valid-arguments" [] else None
   | ObPage es cs info =>
       if negb (args_ok a) then None     (* not this property's business; the model comparison sees it *)
